@@ -11,7 +11,7 @@ set -u
 export GOFLAGS=-mod=mod GOPROXY=off GOSUMDB=off GOTOOLCHAIN=local
 LANES=${1:-4}
 OUT=/tmp/seedrecheck
-rm -rf $OUT; mkdir -p $OUT
+[ -n "${ONLY_MISSING:-}" ] || rm -rf $OUT; mkdir -p $OUT   # ONLY_MISSING=1: keep earlier results, run only seeds without one
 HEAD=$(git -C /repo rev-parse --short HEAD)
 lane() {
   k=$1
@@ -24,6 +24,7 @@ lane() {
     for sd in /verif/seeded/$id-${SUFFIX:-*}; do
       [ -f $sd/patch.diff ] || continue
       name=$(basename $sd)
+      [ -n "${ONLY_MISSING:-}" ] && [ -f $OUT/$name.txt ] && continue
       git -C $W checkout -q -- . ; git -C $W clean -fdq
       if ! git -C $W apply $sd/patch.diff 2>/dev/null && ! git -C $W apply -3 $sd/patch.diff 2>/dev/null; then
         git -C $W checkout -q -- . ; git -C $W reset -q --hard
